@@ -35,15 +35,22 @@ def run(ctx):
                 for c in cases if c["match"] == "0"]
     failures += [dict(p, case=p.get("case")) for p in cc.harness_problems(recs) if p["kind"] in ("hang", "crash")]
     mism = [{"case": cc.case_view(c), "what": "model and implementation return different results"} for c in cases if c["model"] != c["go"]]
+    mism += [{"case": cc.case_view(c), "what": "the parser accepted an expression whose parsed fields are not well-formed (wf_fields, the hypothesis of the theorems, fails)"}
+             for c in cases if c.get("wf") != "wf=1"]
     ystep = 9 if ctx.tier == "quick" else 1
     aux = cc.run_aux(hbin, dbin, "cal", ystep) + cc.run_aux(hbin, dbin, "dayn", ystep)
     naux, auxbad = cc.aux_compare(aux)
     mism += [{"case": b, "what": "calendar helper / day target differs between model and implementation"} for b in auxbad]
 
+    def is_failure(c):
+        return ["declarative `matches` rejects the implementation's result (or it is not a whole second after prev)"] if c["match"] == "0" else []
+
     def search():
+        found = cc.directed_from_calendar(hbin, dbin, auxbad, is_failure)
+        if found:
+            return found
         recs2 = cc.run_sharded(hbin, dbin, "fixed", ctx.seed + 7777, 30000)
-        return [{"case": cc.case_view(c), "why": ["declarative `matches` rejects the implementation's result"],
-                 "replay": {"expr": c["expr"], "loc": c["loc"], "prev": c["prev"]}}
+        return [{"case": cc.case_view(c), "why": is_failure(c), "replay": {"expr": c["expr"], "loc": c["loc"], "prev": c["prev"]}}
                 for r in recs2 for c in r["cases"] if c["match"] == "0"][:3]
 
     vlib.decide(ctx, broken, failures, mism, search)
